@@ -286,6 +286,65 @@ func (d *driver) ops(w *world.World, depth int, path []string) []engine.Op {
 				return "ok"
 			})
 		}
+		// a router contract holding tokens sends them to the module address in two transfers of one
+		// transaction (two Transfer logs in one receipt): each is converted for exactly its own amount
+		if t.origin == "erc20" && t.name == "honest" {
+			add(fmt.Sprintf("routerTransfersTwice(%s)", t.name), func(p []string, res *engine.Result) string {
+				a := d.view(t, S, R)
+				x := a.tokS.QuoRaw(8)
+				if !x.IsPositive() {
+					return "skip"
+				}
+				router := world.ContractAddr(0x70)
+				asm := evmasm.New()
+				for _, amt := range []sdkmath.Int{x, x.MulRaw(2)} {
+					data, err := d.abi.Pack("transfer", d.modHex, amt.BigInt())
+					if err != nil {
+						panic(err)
+					}
+					idx := asm.Data(data)
+					ln := uint64(asm.CopyDataToMem(idx, 0))
+					asm.Call(evmasm.CALL, 0, t.addr, big.NewInt(0), 0, ln, 0, 0).Op(evmasm.POP)
+				}
+				asm.Stop()
+				w.InstallContract(w.App.BaseApp.VerifDeliverCtx(), router, asm.Bytes(), nil)
+				if !d.call(S, t.addr, "transfer", router, x.MulRaw(3).BigInt()) {
+					return "rejected"
+				}
+				rAcc := sdk.AccAddress(router.Bytes())
+				preCoin, preEsc := d.coinBal(t.denom, rAcc), d.erc20Bal(t, d.modHex)
+				nonce := w.App.AccountKeeper.GetAccount(w.Ctx(), w.Addrs[S]).GetSequence()
+				bz, err := world.WrapEth(w.SignEth(w.Keys[S], world.EthSpec{Nonce: nonce, Gas: 3000000, To: &router, GasPrice: big.NewInt(0)}))
+				if err != nil {
+					panic(err)
+				}
+				r := w.Deliver(bz)
+				res.Evaluations++
+				credited, escrowed := d.coinBal(t.denom, rAcc).Sub(preCoin), d.erc20Bal(t, d.modHex).Sub(preEsc)
+				if r.Code != 0 {
+					return "rejected"
+				}
+				enabled := true
+				if id := w.App.Erc20Keeper.GetERC20Map(w.Ctx(), t.addr); len(id) > 0 {
+					if pr, ok := w.App.Erc20Keeper.GetTokenPair(w.Ctx(), id); ok {
+						enabled = pr.Enabled
+					}
+				}
+				if !enabled {
+					// not a conversion: the module keeps the tokens, nothing is credited
+					if !credited.IsZero() {
+						d.viol(res, t, "hook", "disabled-converted", "coins were credited although the pair is disabled", p, nil)
+					}
+					return "ok:disabled"
+				}
+				if !credited.Equal(escrowed) {
+					d.viol(res, t, "hook", "notexact-multilog", "two transfers to the module in one transaction were not converted for exactly their amounts", p,
+						map[string]any{"coin_credit": credited.String(), "escrow_increase": escrowed.String()})
+				}
+				res.Nontrivial["router|"+t.name] = true
+				return "ok"
+			})
+		}
 		// an approval for the module address moves nothing and converts nothing
 		add(fmt.Sprintf("approveModule(%s,half)", t.name), func(p []string, res *engine.Result) string {
 			a := d.view(t, S, R)
